@@ -163,23 +163,84 @@ func (v Val) Describe() string {
 	return strings.TrimSpace(sb.String())
 }
 
-// Make builds a fresh environment (with a fresh log) for the valuation.
+// Make builds a fresh environment (with a fresh log) for the valuation. Only the
+// members named by the valuation are set; everything else keeps its zero value.
 func Make(v Val) *Env {
 	l := &Log{}
 	e := &Env{L: l}
-	rv := reflect.ValueOf(e).Elem()
-	for name, d := range Domains {
-		i := v[name]
-		val := d[i](l)
-		f := rv.FieldByName(name)
-		if val == nil {
-			f.Set(reflect.Zero(f.Type()))
-		} else {
-			f.Set(reflect.ValueOf(val))
+	for name, i := range v {
+		val := Domains[name][i](l)
+		switch name {
+		case "B":
+			e.B = val.(bool)
+		case "C":
+			e.C = val.(bool)
+		case "I":
+			e.I = val.(int)
+		case "J":
+			e.J = val.(int)
+		case "F":
+			e.F = val.(float64)
+		case "G":
+			e.G = val.(float64)
+		case "S":
+			e.S = val.(string)
+		case "T":
+			e.T = val.(string)
+		case "A":
+			e.A = val.([]int)
+		case "A2":
+			e.A2 = val.([]int)
+		case "SA":
+			e.SA = val.([]string)
+		case "AA":
+			e.AA = val.([]interface{})
+		case "OS":
+			e.OS = val.([]*Obj)
+		case "M":
+			e.M = val.(map[string]int)
+		case "MA":
+			e.MA = val.(map[string]interface{})
+		case "O":
+			e.O = val.(*Obj)
+		case "P":
+			e.P = val.(*Obj)
+		case "X":
+			e.X = val
+		case "Y":
+			e.Y = val
+		case "I8":
+			e.I8 = val.(int8)
+		case "U8":
+			e.U8 = val.(uint8)
+		case "I64":
+			e.I64 = val.(int64)
+		case "F32":
+			e.F32 = val.(float32)
+		case "U":
+			e.U = val.(uint)
+		case "MI":
+			e.MI = val.(MyInt)
+		case "MS":
+			e.MS = val.(MyStr)
+		default:
+			panic("henv: unknown member " + name)
 		}
 	}
 	e.FnInc = func(i int) int { l.Add("FnInc(%d)", i); return i + 1 }
 	return e
+}
+
+// MakeFull is Make with every unmentioned member set to the first value of its domain.
+func MakeFull(v Val) *Env {
+	full := Val{}
+	for name := range Domains {
+		full[name] = 0
+	}
+	for k, i := range v {
+		full[k] = i
+	}
+	return Make(full)
 }
 
 // Valuations enumerates the full product of the domains of the given members.
@@ -216,6 +277,21 @@ func AsMap(e *Env) map[string]interface{} {
 	}
 	for i := 0; i < rt.NumMethod(); i++ {
 		m[rt.Method(i).Name] = rv.Method(i).Interface()
+	}
+	return m
+}
+
+// AsMapOnly is AsMap restricted to the given member names (the only ones a program
+// that mentions exactly these names can look up).
+func AsMapOnly(e *Env, names []string) map[string]interface{} {
+	m := make(map[string]interface{}, len(names))
+	rv := reflect.ValueOf(*e)
+	for _, n := range names {
+		if f := rv.FieldByName(n); f.IsValid() {
+			m[n] = f.Interface()
+		} else if meth := rv.MethodByName(n); meth.IsValid() {
+			m[n] = meth.Interface()
+		}
 	}
 	return m
 }
